@@ -130,6 +130,11 @@ func loadCorpus() {
 		qcase{text: "match (n) return n limit 5 + 5"},
 		qcase{text: "match (n) return n limit -1"},
 		qcase{text: "match (n) with n skip $s limit 3 return n", params: map[string]any{"s": int64(1)}},
+		// multi-part queries whose part before the WITH is one the optimizer rewrites (selective end node,
+		// variable-length expansion): the rewrite must happen on the translator's copy
+		qcase{text: "match p = (s:User)-[:MemberOf*0..]->(:Group)-[:AdminTo]->(d:Computer) where d.name = 'x' with p, d match (d)-[:AdminTo]->(c:Computer) return p, c"},
+		qcase{text: "match (a)-[:MemberOf*1..]->(g:Group) where g.name = 'x' with a match (a)-[:AdminTo]->(c) return c"},
+		qcase{text: "match (n:User)-[:MemberOf]->(g:Group) where g.objectid = 'S-1' with n, g match (g)<-[:MemberOf*1..]-(m) with m, n match (m)-[:AdminTo]->(c:Computer) where c.name = 'y' return n, c"},
 	)
 	corpus = append(corpus, rich...)
 	// parseable calls of the functions the translator knows with the wrong number of arguments (none, two,
